@@ -176,7 +176,7 @@ theorem rte_top_eq (D : List (Nat × Nat)) (hx : Env.xmlPrefix ∉ D.map Prod.fs
     ((FStack.new (D.filter (fun d => !rteUndecl d) ++ basePrefixes)).push D).top =
       ((FStack.new basePrefixes).push D).top := by
   rw [top_push, top_push]
-  unfold pushTop
+  unfold Repair.pushTop
   by_cases hD : D.isEmpty = true
   · have : D = [] := by simpa using hD
     subst this
